@@ -62,7 +62,7 @@ def is_hc_counter(ev, fields, i):
     """the step counter of Hc128Core: today's name, else its only usize field"""
     if any(f["name"] == "counter1024" for f in fields):
         return fields[i]["name"] == "counter1024"
-    us = [j for j, f in enumerate(fields) if ev.tys[f["ty"]].get("s") == "usize"]
+    us = [j for j, f in enumerate(fields) if ev.tys[f["ty"]].get("s") in ("usize", "u16", "u32", "u64")]
     return len(us) == 1 and us[0] == i
 
 
@@ -81,7 +81,7 @@ def hc_invariant_self(ev, st, args, body):
             out = list(v.fields)
             for i, f in enumerate(fs):
                 if is_hc_counter(ev, fs, i) and t["def"].endswith("Hc128Core") and isinstance(out[i], T.T):
-                    out[i] = T.shl(T.zext(T.sym(str(out[i].aux) + "/16", 60), 64), 4)
+                    out[i] = T.shl(T.zext(T.sym(str(out[i].aux) + "/16", out[i].w - 4), out[i].w), 4)
                     spots.append(True)
                 else:
                     out[i] = fix(out[i], f["ty"])
